@@ -1098,6 +1098,23 @@ def r_same_walk(ctx: RuleCtx, col: Collector):
             if n.args[0].id not in lists:
                 lists.append(n.args[0].id)
     if len(lists) != 2:
+        # one list of (name, value) pairs, projected twice when written: sep.join(n for n, _ in cols) / (v for _, v in cols)
+        proj = {}
+        for n in ast.walk(f.node):
+            if isinstance(n, ast.Call) and isinstance(n.func, ast.Attribute) and n.func.attr == "join" and n.args and \
+                    isinstance(n.args[0], (ast.GeneratorExp, ast.ListComp)) and len(n.args[0].generators) == 1:
+                g = n.args[0].generators[0]
+                if isinstance(g.iter, ast.Name) and isinstance(g.target, ast.Tuple) and len(g.target.elts) == 2 and isinstance(n.args[0].elt, ast.Name):
+                    names_ = [norm(e) for e in g.target.elts]
+                    if n.args[0].elt.id in names_:
+                        proj.setdefault(g.iter.id, set()).add(names_.index(n.args[0].elt.id))
+        for lst, comps in proj.items():
+            appended = [x for x in ast.walk(f.node) if isinstance(x, ast.Call) and isinstance(x.func, ast.Attribute) and x.func.attr == "append"
+                        and norm(x.func.value) == lst]
+            if comps == {0, 1} and appended and all(len(x.args) == 1 and isinstance(x.args[0], ast.Tuple) and len(x.args[0].elts) == 2 for x in appended):
+                col.ok(where_of(f), f.rel, line_of(appended[0]), "ScalarToFile: names and values of a multi-valued signal come from one traversal",
+                       f"'{lst}' holds (name, value) pairs: every name is appended together with its value")
+                return
         raise AnalysisError("ScalarToFile._response: header and row lists not recognised")
     # both produced together as (name, value) pairs and split afterwards (T, D = zip(*pairs)): one walk by construction
     for n in ast.walk(f.node):
@@ -1240,6 +1257,19 @@ def r_db_dtype(ctx: RuleCtx, col: Collector):
               continue
           n_sites += 1
           construct = f"{g.short}: '{stmt_key(n)}'"
+          # arrays of the same dtype as the accumulator: what it was sliced / copied from (acc = arr[rows, ...])
+          same_dtype = {base.id}
+          grew = True
+          while grew:
+              grew = False
+              for a_ in ast.walk(g.node):
+                  if isinstance(a_, ast.Assign) and len(a_.targets) == 1 and isinstance(a_.targets[0], ast.Name) and a_.targets[0].id in same_dtype:
+                      v_ = a_.value
+                      while isinstance(v_, ast.Subscript) or (isinstance(v_, ast.Call) and isinstance(v_.func, ast.Attribute) and v_.func.attr == "copy" and not v_.args):
+                          v_ = v_.value if isinstance(v_, ast.Subscript) else v_.func.value
+                      if isinstance(v_, ast.Name) and v_.id not in same_dtype:
+                          same_dtype.add(v_.id)
+                          grew = True
           # preceding statements of the same block (and enclosing blocks inside the entry loop): complex-into-real test
           guarded = False
           st = n
@@ -1252,7 +1282,7 @@ def r_db_dtype(ctx: RuleCtx, col: Collector):
                           if isinstance(prev, ast.If):
                               t = norm(prev.test)
                               term_names = (_names(n.value) & dep) | entry_here | (_names(prev.test) & dep)
-                              if "iscomplexobj(" in t and any(f"iscomplexobj({v})" in t for v in term_names - {base.id}) and f"iscomplexobj({base.id})" in t:
+                              if "iscomplexobj(" in t and any(f"iscomplexobj({v})" in t for v in term_names - same_dtype) and any(f"iscomplexobj({b_})" in t for b_ in same_dtype):
                                   guarded = True
               st = blk
           if guarded:
@@ -1280,6 +1310,8 @@ def r_gs_rank(ctx: RuleCtx, col: Collector):
         raise AnalysisError(f"{g.short}: database appends not found")
     # the normalisation: V /= N for an appended V
     appended_vars = {a.args[0].id for a in appends if a.args and isinstance(a.args[0], ast.Name)}
+    # a pair stored as one tuple: basis.append((x, b))
+    appended_vars |= {e.id for a in appends if a.args and isinstance(a.args[0], ast.Tuple) for e in a.args[0].elts if isinstance(e, ast.Name)}
     norms = {}
     for n in ast.walk(g.node):
         if isinstance(n, ast.AugAssign) and isinstance(n.op, ast.Div) and isinstance(n.target, ast.Name) and n.target.id in appended_vars \
